@@ -87,6 +87,32 @@ fn judge<'a, T: DiffableStr + ?Sized + 'a>(d: &'a TextDiff<'a, 'a, 'a, T>, old: 
             }
         }
     }
+    // slice_old / slice_new for token ranges that are not an op's range: inside an op, across ops
+    {
+        let (nt_o, nt_n) = (old_tokens.len(), new_tokens.len());
+        let picks = |n: usize| -> Vec<(usize, usize)> {
+            if n == 0 {
+                return vec![];
+            }
+            vec![(0, n), (0, 1), (n - 1, n), (n / 3, (n / 3 + 2).min(n)), (n / 2, n), (1.min(n - 1), n)]
+        };
+        for (a, b) in picks(nt_o) {
+            if a < b {
+                match r1.slice_old(a..b) {
+                    Some(s) if s.as_bytes() == &ob[oo[a]..oo[b]] => {}
+                    o => return Err(format!("slice_old({}..{}) = {:?}, the tokens {}..{} concatenate to {:?}", a, b, o.map(|s| escape_bytes(s.as_bytes())), a, b, escape_bytes(&ob[oo[a]..oo[b]]))),
+                }
+            }
+        }
+        for (a, b) in picks(nt_n) {
+            if a < b {
+                match r2.slice_new(a..b) {
+                    Some(s) if s.as_bytes() == &nb[no[a]..no[b]] => {}
+                    o => return Err(format!("slice_new({}..{}) = {:?}, the tokens {}..{} concatenate to {:?}", a, b, o.map(|s| escape_bytes(s.as_bytes())), a, b, escape_bytes(&nb[no[a]..no[b]]))),
+                }
+            }
+        }
+    }
     // the remapper is a lookup, not a cursor: asking again in reverse op order gives the same slices
     for op in d.ops().iter().rev() {
         let a: Vec<(ChangeTag, &[u8])> = r1.iter_slices(op).map(|(t, s)| (t, s.as_bytes())).collect();
